@@ -318,7 +318,7 @@ func checkC20(c *Ctx) {
 		// outcome does to the level and to the response.
 		// a decoder: any function (called directly or through a function value) that yields (zapcore.Level, error)
 		isDecSig := func(sig *types.Signature) bool {
-			return sig != nil && sig.Results().Len() == 2 && strings.HasSuffix(sig.Results().At(0).Type().String(), "zapcore.Level") && sig.Results().At(1).Type().String() == "error"
+			return sig != nil && sig.Results().Len() == 2 && strings.HasSuffix(TStr(sig.Results().At(0).Type()), "zapcore.Level") && TStr(sig.Results().At(1).Type()) == "error"
 		}
 		isDecode := func(cl *ssa.Call) bool {
 			sig, _ := cl.Call.Value.Type().Underlying().(*types.Signature)
@@ -381,7 +381,7 @@ func checkC20(c *Ctx) {
 					if bt != nil {
 						if stt, ok := types.Unalias(bt).Underlying().(*types.Struct); ok {
 							for i := 0; i < stt.NumFields(); i++ {
-								if strings.HasSuffix(stt.Field(i).Type().String(), "zapcore.Level") {
+								if strings.HasSuffix(TStr(stt.Field(i).Type()), "zapcore.Level") {
 									return "body-level"
 								}
 							}
